@@ -193,6 +193,33 @@ example : evalAt (.batch 0) 5 (.enumerate (.batch 0)) [[[.int 1, .int 2]], [[.in
     = [.pair (.int 0) (.int 9)] := by
   simp [evalAt, mealyList, enumStep, inBatch]
 
+/-! ### `'tick` persistence at the level of the operator state machine -/
+
+/-- an operator instance the way the DFIR code generator emits it for `'tick` persistence: a state cell,
+    the per-tick iterator code (`step` over the tick's batch), and `write_tick_end`, which re-initialises
+    the cell to `s0` after EVERY tick (`fold`/`reduce`/`fold_keyed`/`scan`/`enumerate`/`unique`/join
+    tables/`cross_singleton` all have this shape) -/
+def runTickPersistence {σ : Type} (step : σ → Val → σ × List Val) (s0 : σ) : σ → List Batch → List Batch
+  | _, [] => []
+  | s, b :: bs => (mealyList step s b).2 :: runTickPersistence step s0 s0 bs
+
+/-- whatever state the cell holds when the run starts, from the second tick on (and from the first one if
+    it starts initialised) every tick's output is the function of that tick's batch alone: the reset in
+    `write_tick_end` makes the state machine equal to the per-batch `mealyTick` the tick model uses -/
+theorem tick_persistence_machine_no_leak {σ : Type} (step : σ → Val → σ × List Val) (s0 s : σ)
+    (b : Batch) (bs : List Batch) :
+    runTickPersistence step s0 s (b :: bs) = (mealyList step s b).2 :: mealyTick step s0 bs ∧
+    runTickPersistence step s0 s0 (b :: bs) = mealyTick step s0 (b :: bs) := by
+  have h : ∀ (l : List Batch), runTickPersistence step s0 s0 l = mealyTick step s0 l := by
+    intro l
+    induction l with
+    | nil => simp [runTickPersistence, mealyTick]
+    | cons x xs ih => simp only [runTickPersistence, ih]; simp [mealyTick]
+  exact ⟨by simp only [runTickPersistence, h], h _⟩
+
+/-- contrast: with `'static` persistence (`mealyStatic`) the second tick does see the first one -/
+example : mealyStatic enumStep 0 [[.int 7], [.int 8]] ≠ mealyTick enumStep 0 [[.int 7], [.int 8]] := by decide
+
 /-! ### one tick later -/
 
 /-- the value does not depend on the fuel once it covers the history -/
